@@ -95,6 +95,12 @@ CLAIMED = {
   "technique": "Lean 4 proof (round trip / monotonicity of positions, exact slicing of comment matches, lookup soundness+completeness) + position correspondence + generator-with-ground-truth oracle on the analyser",
   "design_ref": "4 C08",
  },
+ "C16": {
+  "text": "Lean 4 theorems on the model of exports_and_re_exports (own exports, then the non-default, not-yet-present exports of every star re-export, one visited set for the whole traversal, fuel = #modules+1): for every world of modules - any chaining and any cycles of `export * from`, unresolvable targets included - the resolved export names of a module are EXACTLY its own names plus the non-default own names of everything reachable through star re-exports (exports_exact = exports_sound + exports_complete, the latter by a depth-first-search invariant: the visited set is closed under star edges and every newly visited module's names arrive), so the computation needs no more than #modules+1 nested calls (finite time); own names come first in declaration order and are never replaced (own_first); merging never duplicates a name. Tied to /repo by correspondence of ModuleInfoRef::exports on generated multi-module TypeScript programs (names and holding module, every module as the start). Tree shape, id validity, declaration names/ranges and termination of go-to-definition are decided on the implementation for every symbol of every generated program and of every spec file under tests/specs/symbols and tests/specs/graph, each world in its own child process.",
+  "note": "Partial: the symbol-table builder (SymbolFiller) and find_definition_paths are not modelled in Lean; their outputs are checked per program (tree checks as in the repository's own spec helper: symbols that only stand for a reference - export specifiers, import aliases - are required to be neither child nor member, declaring symbols exactly once). Go-to-definition termination is observed (child process, 20 s limit), not proved; open finding F3 (stack overflow on mutually recursive import aliases).",
+  "technique": "Lean 4 proof (DFS invariant: soundness + completeness of the resolved export set against an inductive reachability spec) + model-vs-implementation correspondence + per-program well-formedness oracle in child processes",
+  "design_ref": "4 C16",
+ },
 }
 NOT_APPLICABLE = {}
 ALL = [f"C{i:02d}" for i in range(1, 21)]
